@@ -165,6 +165,47 @@ fn sibling_boundary_cluster(r: &mut Rng) -> Vec<String> {
     out
 }
 
+/// A small pool around the edges of the number representation: small values
+/// behind 20-70 zeros, the largest 64-bit values and their neighbours, values
+/// that do not fit, each as first component, as a later component and as the
+/// revision, next to the ordinary versions they have to be ordered against.
+/// The laws need no reference, so nothing here is out of bounds.
+fn extreme_pool(r: &mut Rng) -> Vec<String> {
+    const X: [&str; 9] = [
+        "9223372036854775807", "9223372036854775806", "9223372036854775808", "18446744073709551616", "99999999999999999999",
+        "100000000000000000000000000000000000000000", "4294967296", "7", "1",
+    ];
+    let zeros = *r.pick(&[19usize, 20, 37, 38, 39, 40, 64, 70]);
+    let small = r.range(1, 9);
+    let padded = format!("{}{small}", "0".repeat(zeros));
+    let head = format!("{}", r.below(3));
+    let mut out: Vec<String> = vec![
+        String::new(),
+        head.clone(),
+        format!("{head}.5"),
+        format!("{head}.5.1"),
+        format!("{}", r.range(3, 5)),
+        format!("{small}"),
+        format!("{small}.0"),
+        padded.clone(),
+        format!("{padded}.0"),
+        format!("{head}.{padded}"),
+        format!("{head}.{small}"),
+        format!("{head}.5nb{padded}"),
+        format!("{head}.5nb{small}"),
+    ];
+    for _ in 0..3 {
+        let x = *r.pick(&X);
+        out.push(x.to_string());
+        out.push(format!("{head}.{x}"));
+        out.push(format!("{head}.5nb{x}"));
+        out.push(format!("{head}.{x}.1"));
+    }
+    out.sort();
+    out.dedup();
+    out
+}
+
 /// A pool: clusters of a seed string and its near neighbours.
 fn pool(r: &mut Rng, n: usize) -> Vec<String> {
     let mut out: Vec<String> = vec![String::new()];
@@ -360,7 +401,7 @@ fn check_pool(ev: &mut Ev, s: &[String], two_bound_pairs: &[(usize, usize)]) -> 
 
 pub fn run(cx: &mut Cx) {
     cx.set_budget(1 << 26, 1 << 32);
-    for k in ["law/reflexivity", "law/pair-laws", "law/transitivity-premises-true", "law/two-bound-true", "pairs/equal-value-different-text", "pool/strings-outside-reference-domain"] {
+    for k in ["law/reflexivity", "law/pair-laws", "law/transitivity-premises-true", "law/two-bound-true", "pairs/equal-value-different-text", "pool/strings-outside-reference-domain", "pool/extreme"] {
         cx.ev.require(k);
     }
     let (pools, size, tb) = cx.pick_tier((1usize, 14usize, 4usize), (2, 60, 20), (10, 160, 80), (24, 400, 300));
@@ -383,6 +424,22 @@ pub fn run(cx: &mut Cx) {
                 format!("pool #{pi} of {} strings, e.g. {:?}", s.len(), show)
             },
             |ev| check_pool(ev, &s, &pairs),
+        );
+    }
+    // small pools at the edges of the number representation, every pair of
+    // members as the two ends of a range
+    let mut r = cx.stream("extreme-pools");
+    for pi in 0..cx.pick_tier(1usize, 2, 8, 24) {
+        let s = extreme_pool(&mut r);
+        let n = s.len();
+        let pairs: Vec<(usize, usize)> = (0..n).flat_map(|a| (0..n).map(move |c| (a, c))).collect();
+        cx.set_budget(1 << 26, 1 << 34);
+        cx.check(
+            || format!("extreme pool #{pi}: {s:?}"),
+            |ev| {
+                ev.count("pool/extreme");
+                check_pool(ev, &s, &pairs)
+            },
         );
     }
 }
